@@ -499,6 +499,9 @@ func TestFixedSpecs(t *testing.T) {
 	}
 	specs = append(specs, manyDiagnostics()...)
 	specs = append(specs,
+		// the same group written several times, with a string and a rule that are spelled alike among its alternatives
+		"grammar g;\nstart = ( \"if\" | if ) ( \"if\" | if ) [ \"if\" | if ] [ \"if\" | if ] { if | \"if\" } { \"if\" | if };\nif = \"x\" | \"y\";\n",
+		"grammar g;\nID = /[a-z]+/\nstart = ( id | \"id\" | ID ) ( \"id\" | ID | id ) ( ID | id | \"id\" );\nid = \"0\";\n",
 		// unknown predefined names close to two of the predefined ones
 		"grammar g;\nAA = $NL\nBB = $OP\nCC = $X\nDD = $WD\nEE = $IS\nFF = $IB\nGG = $STRIN\nstart = AA BB CC DD EE FF GG;\n",
 		// named string tokens and literals of every length from one to six (an order by length, name or text must be total)
